@@ -11,6 +11,7 @@ import (
 	"runtime/debug"
 	"strconv"
 	"strings"
+	"sync"
 	"syscall"
 	"time"
 
@@ -35,11 +36,44 @@ func init() {
 // c09aWorker: worker c09a <historyfile>: runs the in-process part (deadline sweep or depth scenario) of one history
 // in a child and prints its Outcome. The parent can then survive (and report) an evaluation that never stops
 // polling-free or a fatal stack overflow.
+// c09Heartbeat is called by the sweeps after every evaluation (set in the child process only).
+var c09Heartbeat = func() {}
+
+// c09Activity collects a child's stderr and remembers when it last wrote something.
+type c09Activity struct {
+	mu   sync.Mutex
+	buf  bytes.Buffer
+	last time.Time
+}
+
+func (a *c09Activity) Write(p []byte) (int, error) {
+	a.mu.Lock()
+	defer a.mu.Unlock()
+	a.last = time.Now()
+	if a.buf.Len() < 1<<20 {
+		a.buf.Write(p)
+	}
+	return len(p), nil
+}
+
+func (a *c09Activity) idle() time.Duration {
+	a.mu.Lock()
+	defer a.mu.Unlock()
+	return time.Since(a.last)
+}
+
+func (a *c09Activity) String() string {
+	a.mu.Lock()
+	defer a.mu.Unlock()
+	return a.buf.String()
+}
+
 func c09aWorker(args []string) int {
 	h, err := core.LoadHistory(args[0])
 	if err != nil {
 		return 2
 	}
+	c09Heartbeat = func() { _, _ = os.Stderr.WriteString("#\n") }
 	var o *core.Outcome
 	if h.Strs["sub"] == "deadline" {
 		o = c09{}.execDeadline(h)
@@ -65,16 +99,39 @@ func (c09) inChild(h *core.History) *core.Outcome {
 	_, _ = f.Write(b)
 	f.Close()
 	self, _ := os.Executable()
-	ctx, cancel := context.WithTimeout(context.Background(), 180*time.Second)
+	// Watchdog on INACTIVITY, not on total time: the child writes a heartbeat to stderr after every evaluation of
+	// its sweep, and is killed when it has been silent for 150 s (one evaluation takes milliseconds when the deadline
+	// is honoured). A slow machine or a long sweep can therefore not look like a hang.
+	ctx, cancel := context.WithCancel(context.Background())
 	defer cancel()
 	cmd := exec.CommandContext(ctx, self, "worker", "c09a", f.Name())
-	var ob, eb bytes.Buffer
-	cmd.Stdout, cmd.Stderr = &ob, &eb
+	var ob bytes.Buffer
+	eb := &c09Activity{last: time.Now()}
+	cmd.Stdout, cmd.Stderr = &ob, eb
+	hung := false
+	done := make(chan struct{})
+	go func() {
+		t := time.NewTicker(time.Second)
+		defer t.Stop()
+		for {
+			select {
+			case <-done:
+				return
+			case <-t.C:
+				if eb.idle() > 150*time.Second {
+					hung = true
+					cancel()
+					return
+				}
+			}
+		}
+	}()
 	err = cmd.Run()
+	close(done)
 	key := h.Strs["sub"] + "|" + h.Strs["key"]
-	if ctx.Err() != nil {
+	if hung {
 		return &core.Outcome{Viol: &core.Violation{Oracle: "returns-after-deadline", Sig: "C09|" + key + "|evaluation-does-not-stop",
-			Detail: fmt.Sprintf("sub-scenario %s, program %q: the evaluation did not come back (worker killed after 180 s of real time; with a virtual deadline armed it must return after a bounded number of context polls)", h.Strs["sub"], h.Strs["key"])},
+			Detail: fmt.Sprintf("sub-scenario %s, program %q: one evaluation did not come back (worker killed after 150 s without finishing a single evaluation of its sweep; with a virtual deadline armed it must return after a bounded number of context polls)", h.Strs["sub"], h.Strs["key"])},
 			Stats: core.Stats{Shape: shapeOf([]string{key, "hung"}), Children: 1, Nontrivial: true}}
 	}
 	if err != nil {
@@ -379,6 +436,7 @@ func (c09) execDeadline(h *core.History) *core.Outcome {
 	}
 	classes := map[string]int{}
 	for k := int64(1); k <= T; k++ {
+		c09Heartbeat()
 		r := s.Input(prog, &core.Fault{Kind: "deadline", At: k})
 		classes[r.Class]++
 		if r.Fired {
@@ -453,8 +511,11 @@ func (c09) execDepth(h *core.History) *core.Outcome {
 		st.Shape = "empty"
 		return o
 	}
+	c09Heartbeat()
 	D := calibrateDepth(cfg)
+	c09Heartbeat()
 	r := s.Input(prog, nil)
+	c09Heartbeat()
 	switch r.Class {
 	case "panic:guard-depth":
 		st.Fault("depth_guard")
